@@ -112,7 +112,7 @@ var funcmap = FuncMap{
 		for _, s := range l {
 			res += convert(s).String()
 		}
-		if len(res) > 1 {
+		if len(res) > 0 {
 			return " " + strings.TrimSpace(res)
 		}
 		return ""
